@@ -222,23 +222,96 @@ fn run_tables(seed: u64, idx: u64, tier: Tier, out: &mut CaseOut, c05: bool) {
             out.inc("unstructured_tables");
             // equal line widths still required for tables in which all columns are sized
             if !table.has_nested() {
-                // tables with unsized columns: known allocation quirks; classify
+                // Tables with zero-width columns.  The known defect: a spanning cell
+                // that covers zero-width columns is laid out with colspan-1 extra
+                // separator columns (ragged lines), and a spanning cell whose columns
+                // ALL have zero width is skipped (its text is missing).  With the
+                // hooked allocation both effects are predictable, so anything else
+                // that goes wrong in such a table is still reported as new.
                 let width0 = grid.first().map(|r| r.len()).unwrap_or(0);
-                if grid.iter().any(|r| r.len() != width0) {
+                let ragged = grid.iter().any(|r| r.len() != width0);
+                let b = table.boundaries();
+                let mut expected_text = String::new();
+                let mut known_skipped_span = false;
+                let mut allowed_widths: Vec<usize> = Vec::new();
+                let hook_ok = lay.from_hook && lay.col_widths.len() + 1 == b.len();
+                if hook_ok {
+                    let cwid = &lay.col_widths;
+                    allowed_widths.push(
+                        cwid.iter().sum::<usize>() + cwid.iter().filter(|&&x| x > 0).count().saturating_sub(1),
+                    );
+                    for row in &table.rows {
+                        let mut c = 0;
+                        let mut roww = 0usize;
+                        let mut ncells = 0usize;
+                        for cell in row {
+                            let a0 = b.iter().position(|&x| x == c).unwrap();
+                            let e0 = b.iter().position(|&x| x == c + cell.span).unwrap();
+                            let sum: usize = cwid[a0..e0].iter().sum();
+                            if sum > 0 {
+                                expected_text.push_str(&cell.text());
+                                roww += sum + (e0 - a0) - 1;
+                                ncells += 1;
+                            } else if !cell.is_empty() && e0 - a0 >= 2 {
+                                known_skipped_span = true;
+                            }
+                            c += cell.span;
+                        }
+                        if ncells > 0 {
+                            allowed_widths.push(roww + ncells - 1);
+                        }
+                    }
+                }
+                if ragged {
+                    // text lines must have one of the predicted row widths; rules are
+                    // stretched to the junctions of the rows next to them
+                    let maxw = allowed_widths.iter().copied().max().unwrap_or(0);
+                    let explained = hook_ok
+                        && grid.iter().all(|r| {
+                            if is_rule_line(r) {
+                                r.len() <= maxw
+                            } else {
+                                allowed_widths.contains(&r.len())
+                            }
+                        });
                     findings.push(Finding {
-                        sig: "ragged-lines:unsized-column".into(),
-                        what: "lines of the table differ in width (table has a column whose only content is a spanning cell narrower than its colspan, or no content)".into(),
+                        sig: if explained || !hook_ok {
+                            "ragged-lines:unsized-column".into()
+                        } else {
+                            "ragged-lines".into()
+                        },
+                        what: format!(
+                            "lines of the table differ in width (allocation {:?}; line widths {:?})",
+                            lay.col_widths,
+                            {
+                                let mut ws: Vec<usize> = grid.iter().map(|r| r.len()).collect();
+                                ws.sort_unstable();
+                                ws.dedup();
+                                ws
+                            }
+                        ),
                     });
                 }
-                // text must still be there (C06): multiset
+                // text (C06): every cell that was given width must be there
                 let mut a: Vec<char> = grid.iter().flatten().filter(|c| in_t(**c)).cloned().collect();
-                let mut b: Vec<char> = table.all_text().chars().filter(|c| in_t(*c) && cw(*c) > 0).collect();
                 a.sort_unstable();
-                b.sort_unstable();
-                if a != b {
+                let mut all: Vec<char> = table.all_text().chars().filter(|c| in_t(*c) && cw(*c) > 0).collect();
+                all.sort_unstable();
+                if a != all {
+                    let mut exp: Vec<char> = expected_text.chars().filter(|c| in_t(*c) && cw(*c) > 0).collect();
+                    exp.sort_unstable();
+                    let explained = !hook_ok || (known_skipped_span && a == exp);
                     findings.push(Finding {
-                        sig: "cell-text-missing:unsized-column".into(),
-                        what: "a cell's text is missing from the table (column without a size estimate)".into(),
+                        sig: if explained {
+                            "cell-text-missing:unsized-column".into()
+                        } else {
+                            "cell-text-missing".into()
+                        },
+                        what: format!(
+                            "text of the table's cells is missing from or added to the output (allocation {:?}); {}",
+                            lay.col_widths,
+                            if explained { "only spanning cells over zero-width columns are affected" } else { "cells that were given width are affected" }
+                        ),
                     });
                 }
             } else if !lay.vertical {
